@@ -115,6 +115,7 @@ func VH_order(which int, size int, isRepl int) {
 		mode = 2
 	}
 	vpReset(1, mode, false)
+	vpNoRepeat = true
 	stOnline = false
 	env := environment.NewEnvironmentWithParent(environment.NewEnvironment())
 	node, m := orderNode(which, mode, reach.mask(), env)
@@ -189,6 +190,7 @@ func VH_logical(size int, isOr int) {
 		mode = 2
 	}
 	vpReset(1, mode, false)
+	vpNoRepeat = true
 	stOnline = false
 	a := vpNew(mode, reach.mask(), 3)
 	b := vpNew(mode, reach.mask(), 3)
@@ -296,6 +298,7 @@ func VH_grouping(size int) {
 		mode = 2
 	}
 	vpReset(1, mode, true)
+	vpNoRepeat = true
 	stOnline = false
 	p := vpNew(mode, reach.mask(), 3)
 	utils.HadRuntimeError = false
